@@ -23,7 +23,10 @@ Same(x, y) ==
                           /\ \A j \in 1..Len(x[i].parts) : SetOf(x[i].parts[j].nodes) = SetOf(y[i].parts[j].nodes)
 NoDup(x) == \A i \in 1..Len(x) : \A j \in 1..Len(x[i].parts) :
                Cardinality(SetOf(x[i].parts[j].nodes)) = Len(x[i].parts[j].nodes)
+\* the descriptor of a dataset and its partition objects describe the same replica sets
+DescrOK(x) == \A i \in 1..Len(x) : \A j \in 1..Len(x[i].parts) : SetOf(x[i].parts[j].nodes) = SetOf(x[i].parts[j].pnodes)
 V(t) == (IF t.res = "ok" THEN {} ELSE {<<l, "RestoreFailed">>})
+        \cup (IF DescrOK(t.a) /\ DescrOK(t.b) /\ DescrOK(t.c) THEN {} ELSE {<<l, "DescriptorStale">>})
         \cup (IF Same(t.a, t.b) THEN {} ELSE {<<l, "RestoreIntoKnownDiffers">>})
         \cup (IF Same(t.a, t.c) THEN {} ELSE {<<l, "RestoreFromScratchDiffers">>})
         \cup (IF NoDup(t.a) /\ NoDup(t.b) /\ NoDup(t.c) THEN {} ELSE {<<l, "ReplicaListedTwice">>})
